@@ -125,8 +125,9 @@ theorem leaf_step_upsert {ed : Ed} (hinv : Inv ed) {P : Path} (hpb : ed.pathBuf 
     obtain ⟨i, hs, hp⟩ := searchName_absent ht hn hf false
     let e3 : Entry := { name := n, mode := k.mode, oid := k.id }
     have he3 : e3.isTree = false := hkind
-    have ht' := treeOk_insertAt ht hn hf hp e3 rfl he3
-    have hfn := findName_insertAt ht hn hf hp e3 rfl he3
+    have hg3 : GoodEntry e3 := fun h => by rw [he3] at h; cases h
+    have ht' := treeOk_insertAt ht hn hf hp e3 rfl he3 hg3
+    have hfn := findName_insertAt ht hn hf hp e3 rfl he3 hg3
     refine leaf_finish hinv hP ht' ?_ ?_ (aset P (insertAt t i e3) ed.trees) ?_ ?_ ?_
     · intro x hx; rw [hfn] at hx; simp at hx; subst hx; exact he3
     · intro m hm; rw [hfn]; simp [hm]
@@ -148,9 +149,10 @@ theorem leaf_step_upsert {ed : Ed} (hinv : Inv ed) {P : Path} (hpb : ed.pathBuf 
     have he2 : e2.isTree = false := hkind
     have he2n : e2.name = t[i].name := by rw [hti]
     have he2eq : e2 = ⟨k.mode, n, k.id⟩ := by simp [e2, hen]
+    have hg2 : GoodEntry e2 := fun h => by rw [he2] at h; cases h
     cases hd : e.isTree with
     | true =>
-      have ht' := treeOk_set_sort ht hi e2 he2n
+      have ht' := treeOk_set_sort ht hi e2 he2n hg2
       have hmem : ∀ x, x ∈ sortEntries (t.set i e2) ↔ x ∈ t.set i e2 :=
         fun x => (sortEntries_perm _).mem_iff
       have hfn := findName_set ht hi e2 he2n ht' hmem
@@ -171,7 +173,7 @@ theorem leaf_step_upsert {ed : Ed} (hinv : Inv ed) {P : Path} (hpb : ed.pathBuf 
       · simp [stepAt, hpb, hP, hs, List.getElem?_eq_getElem hi, hti, hum, hd, hmode, setAt, e2]
     | false =>
       have he2t : e2.isTree = t[i].isTree := by rw [hti, hd]; exact he2
-      have ht' := treeOk_set_same ht hi e2 he2n he2t
+      have ht' := treeOk_set_same ht hi e2 he2n he2t hg2
       have hfn := findName_set ht hi e2 he2n ht' (fun _ => Iff.rfl)
       rw [hti, hen] at hfn
       refine leaf_finish hinv hP ht' ?_ ?_ (aset P (t.set i e2) ed.trees) ?_ ?_ ?_
